@@ -22,6 +22,7 @@ import (
 )
 
 type replayTest struct {
+	blocking  string
 	Source    string
 	Result    string
 	Input     any
@@ -49,7 +50,12 @@ func planParams(eng *Engine, fi *FuncInfo) ([]paramPlan, bool) {
 	if sig.Recv() != nil {
 		return nil, false
 	}
-	q := func(p *types.Package) string { return "" }
+	q := func(p *types.Package) string {
+		if p == eng.pkg.Types {
+			return ""
+		}
+		return p.Name()
+	}
 	for i := 0; i < sig.Params().Len(); i++ {
 		p := sig.Params().At(i)
 		t := p.Type()
@@ -86,9 +92,7 @@ func planParams(eng *Engine, fi *FuncInfo) ([]paramPlan, bool) {
 		default:
 			pp.kind = "zero"
 		}
-		if strings.Contains(pp.goTy, "cbor.") {
-			pp.goTy = strings.ReplaceAll(pp.goTy, "github.com/fxamacker/cbor/v2.", "cbor.")
-		}
+
 		out = append(out, pp)
 	}
 	return out, true
@@ -142,6 +146,27 @@ func tryReplay(eng *Engine, cs *clauseStatus, o *Obligation) (*replayTest, bool)
 	if !replayableKind(o.Kind) || o.Query == "" {
 		return nil, false
 	}
+	// several models: prefer short inputs, and block scalar parameter values of attempts that did not reproduce
+	orig := o.Query
+	defer func() { o.Query = orig }()
+	extra := ""
+	var last *replayTest
+	for attempt := 0; attempt < 5; attempt++ {
+		o.Query = orig + extra
+		rt, ok := replayAttempt(eng, cs, o, attempt == 0)
+		if !ok {
+			return last, last != nil
+		}
+		last = rt
+		if rt.Confirmed || rt.blocking == "" {
+			return rt, true
+		}
+		extra += rt.blocking
+	}
+	return last, last != nil
+}
+
+func replayAttempt(eng *Engine, cs *clauseStatus, o *Obligation, preferShort bool) (*replayTest, bool) {
 	base := cs.Func
 	if i := strings.Index(base, "@"); i >= 0 {
 		base = base[:i]
@@ -185,9 +210,41 @@ func tryReplay(eng *Engine, cs *clauseStatus, o *Obligation) (*replayTest, bool)
 	vals := map[string]string{}
 	if len(usable) > 0 {
 		var raw string
-		vals, raw = getValues(o.Query, usable, dir)
+		// prefer short byte inputs when the failure admits one
+		short := ""
+		for _, t := range usable {
+			if strings.HasPrefix(t, "(len_Sl_Int ") {
+				short += fmt.Sprintf("(assert (<= %s 48))\n", t)
+			}
+		}
+		if short != "" {
+			vals, raw = getValues(o.Query+short, usable, dir)
+			if vals != nil {
+				o.Query = o.Query + short
+			}
+		}
+		if vals == nil {
+			vals, raw = getValues(o.Query, usable, dir)
+		}
 		if vals == nil {
 			return &replayTest{Result: "model not available: " + firstLine(raw)}, true
+		}
+	}
+	blocking := ""
+	{
+		var eqs []string
+		for _, p := range plan {
+			n := "p_" + sanitize(p.name)
+			if (p.kind == "small" || p.kind == "int" || p.kind == "bool") && vals[n] != "" {
+				v := vals[n]
+				if strings.HasPrefix(v, "-") {
+					v = "(- " + v[1:] + ")"
+				}
+				eqs = append(eqs, fmt.Sprintf("(= %s %s)", n, v))
+			}
+		}
+		if len(eqs) > 0 {
+			blocking = "(assert (not (and " + strings.Join(eqs, " ") + ")))\n"
 		}
 	}
 	// byte contents
@@ -222,7 +279,11 @@ func tryReplay(eng *Engine, cs *clauseStatus, o *Obligation) (*replayTest, bool)
 			}
 			setup = append(setup, fmt.Sprintf("\t%s := []byte{%s}", safeName(p.name), strings.Join(bts, ", ")))
 			args = append(args, safeName(p.name))
-			input[p.name] = map[string]any{"len": ln, "bytes": bts}
+			show := bts
+			if len(show) > 64 {
+				show = show[:64]
+			}
+			input[p.name] = map[string]any{"len": ln, "first_bytes": show}
 		case "int":
 			v := vals[n]
 			if v == "" {
@@ -315,7 +376,7 @@ func TestGovcReplay(t *testing.T) {
 	if len(res) > 4000 {
 		res = res[:4000]
 	}
-	return &replayTest{Source: src, Result: res, Input: input, Confirmed: confirmed}, true
+	return &replayTest{Source: src, Result: res, Input: input, Confirmed: confirmed, blocking: blocking}, true
 }
 
 func safeName(n string) string {
